@@ -424,6 +424,7 @@ pub fn run(r: &mut Runner) {
     r.par("constants / nullary trait functions", 1, 37, |_, l| {
         rec.record(l, u64::MAX - 1, traits_const());
     });
+    crate::props::c03::long_sums(r, 5u64 << 60);
     // sum == fold (shared with C03)
     let small: Vec<[f64; 2]> = valid.iter().step_by(valid.len() / 12).cloned().collect();
     let ns = small.len();
